@@ -282,4 +282,99 @@ def run (beh : Beh) (s : DState) : List Op → DState × List Out
     let rs := run beh r.1 ops
     (rs.1, r.2 :: rs.2)
 
+
+/-!
+  ### callees that call the protocol's methods themselves (nested dispatch)
+
+  A handler may call `instance.handle_timer(...)` / `handle_packet(...)` / ... again while a dispatch
+  is running (a watchdog raising a synthetic timer, an envelope handler re-delivering its payload), and
+  a protocol may ask for its dispatcher for the first time from inside a callback.  The nested call goes
+  through the same wrapped method: it takes its OWN snapshot of the chain as it stands then, walks it,
+  and returns to the caller, whose own walk goes on over the snapshot it took when it began.
+
+  The callee semantics handed to the generic `walk` is now itself defined with `walk` one nesting
+  level down; `fuel` bounds the nesting depth (a model artefact: behaviours are arbitrary functions,
+  so a callee could re-dispatch forever; `Ev.outOfFuel` marks where the bound was hit).
+-/
+
+/-- what a callee may do before it returns -/
+inductive NOp
+  | req (o : ROp)             -- a (un)registration on the instance it runs for
+  | create                    -- `create_dispatcher(instance)` from inside the callback
+  | dispatch (k : Kind)       -- call method `k` of the instance it runs for
+deriving DecidableEq, Repr
+
+structure NScript where
+  ops : List NOp
+  ret : Ret
+deriving Repr
+
+abbrev NBeh := Callee → Nat → NScript
+
+/-- the trace of a call of a protocol method, nested calls included, in order of occurrence -/
+inductive Ev
+  | call (e : Entry) (n : Nat)
+  | req (o : ROp) (r : Res)
+  | created (existed : Bool)
+  | beginD (k : Kind)
+  | endD (k : Kind)
+  | ret (e : Entry) (r : Ret)
+  | outOfFuel (k : Kind)
+deriving DecidableEq, Repr
+
+/-- dispatcher world plus the trace so far (newest first) -/
+structure NState where
+  d : DState
+  log : List Ev
+
+/-- the scripted actions of one invocation, in order; `nested s k` = "call method `k` of this instance" -/
+def runNOps (nested : NState → Kind → NState) (p : Nat) : NState → List NOp → NState
+  | s, [] => s
+  | s, .req o :: os =>
+    let r := s.d.applyROp p o
+    runNOps nested p ⟨r.1, .req o r.2 :: s.log⟩ os
+  | s, .create :: os =>
+    runNOps nested p ⟨s.d.create p, .created (s.d.reg p).isSome :: s.log⟩ os
+  | s, .dispatch k :: os =>
+    let s1 := nested ⟨s.d, .beginD k :: s.log⟩ k
+    runNOps nested p ⟨s1.d, .endD k :: s1.log⟩ os
+
+/-- one callee invocation during a call of method `k` on instance `p` -/
+def invokeN (beh : NBeh) (nested : NState → Kind → NState) (p : Nat) (k : Kind) (e : Entry) (s : NState) :
+    NState × Ret × Unit :=
+  let c := calleeOf p k e
+  let n := s.d.calls c
+  let sc := beh c n
+  let s1 := runNOps nested p ⟨s.d.bump c, .call e n :: s.log⟩ sc.ops
+  (⟨s1.d, .ret e sc.ret :: s1.log⟩, sc.ret, ())
+
+/-- calling method `k` of protocol instance `p`, callees allowed `fuel - 1` further levels of nesting:
+    the chain is read ONCE, when the call begins (`s.d.reg.chain p k` is a value), and walked -/
+def dispatchN (beh : NBeh) : Nat → NState → Nat → Kind → NState × List (Call Unit)
+  | 0, s, _, k => (⟨s.d, .outOfFuel k :: s.log⟩, [])
+  | fuel + 1, s, p, k =>
+    walk (invokeN beh (fun s' k' => (dispatchN beh fuel s' p k').1) p k) k.interruptible (s.d.reg.chain p k) s
+
+inductive OutN
+  | created (existed : Bool)
+  | res (r : Res)
+  | events (l : List Ev)
+deriving Repr
+
+def stepN (beh : NBeh) (fuel : Nat) (s : DState) : Op → DState × OutN
+  | .create p => (s.create p, .created (s.reg p).isSome)
+  | .register p k h => let r := s.register p k h; (r.1, .res r.2)
+  | .unregister p k h => let r := s.unregister p k h; (r.1, .res r.2)
+  | .dispatch p k => let r := dispatchN beh fuel ⟨s, []⟩ p k; (r.1.d, .events r.1.log.reverse)
+
+def runN (beh : NBeh) (fuel : Nat) (s : DState) : List Op → DState × List OutN
+  | [] => (s, [])
+  | op :: ops =>
+    let r := stepN beh fuel s op
+    let rs := runN beh fuel r.1 ops
+    (rs.1, r.2 :: rs.2)
+
+/-- a behaviour of the first model as one of this model: the same requests, nothing else -/
+def Beh.lift (beh : Beh) : NBeh := fun c n => ⟨(beh c n).ops.map NOp.req, (beh c n).ret⟩
+
 end Disp
